@@ -12,6 +12,30 @@ from .expr import ExprMixin, truth
 STATS = {'functions': set(), 'runs': 0, 'paths': 0, 'calls_internal': 0, 'calls_external': 0, 'calls_unresolved': 0}
 
 
+_KNOWN = None
+
+
+def known_functions():
+    global _KNOWN
+    if _KNOWN is None:
+        import json
+        import os
+        path = os.path.join(os.path.dirname(os.path.dirname(os.path.abspath(__file__))), 'specs', 'known_functions.json')
+        try:
+            with open(path) as fh:
+                _KNOWN = set(x.replace('#setter', '') for x in json.load(fh)['functions'])
+        except OSError:
+            _KNOWN = set()
+    return _KNOWN
+
+
+def _is_generator(node):
+    for n in ast.walk(node):
+        if isinstance(n, (ast.Yield, ast.YieldFrom)):
+            return True
+    return False
+
+
 class BindError(Exception):
     pass
 
@@ -151,6 +175,8 @@ class Interp(ExprMixin):
             return False
         if f.key in self.inline_set or '*' in self.inline_set:
             return True
+        if f.key not in known_functions() and not _is_generator(f.node):
+            return True      # a helper introduced after the rules were written: transparent
         if auto_simple:
             body = [s for s in f.node.body if not (isinstance(s, ast.Expr) and isinstance(s.value, ast.Constant))]
             if len(body) == 1 and isinstance(body[0], ast.Return):
@@ -290,9 +316,25 @@ class Interp(ExprMixin):
                     return self.call_internal(v[1], args, kwargs, st, node, self_val=v[2])
                 if v[0] == 'unbound':
                     return self.call_internal(v[1], args, kwargs, st, node)
+                if v[0] == 'closure':
+                    return self.call_closure(v[1], args, kwargs, st, node)
         STATS['calls_unresolved'] += 1
         self.log(st, 'call', node, callee='?', bound={}, fn=callee, args=args, kwargs=kwargs)
         return app('callv', P(callee), *[a if isinstance(a, (Poly, Tup)) else P(a) for a in args], **kwargs)
+
+    def call_closure(self, fi, args, kwargs, st, node):
+        """Call of a nested function / lambda: evaluated in place with the enclosing
+        variables visible (closures are transparent to the analysis)."""
+        if _is_generator(fi.node) or fi.key in self.stack or len(self.stack) > self.max_depth + 2:
+            return app('callv', P(Const(('closure', fi.qualname))), *[a if isinstance(a, (Poly, Tup)) else P(a) for a in args])
+        try:
+            bound = self.bind(fi, args, kwargs, st=st, node=node)
+        except BindError as e:
+            self.note(st, 'B2', node, what=str(e), callee=fi.key)
+            return Poly.atom(('fresh', fresh_id(), 'badcall:' + fi.key))
+        env = dict(st.env)
+        env.update(bound)
+        return self.inline(fi, env, st, node)
 
     def call_target(self, tgt, name, args, kwargs, st, node):
         if isinstance(tgt, FuncInfo):
@@ -504,7 +546,9 @@ class Interp(ExprMixin):
     s_ImportFrom = s_Import
 
     def s_FunctionDef(self, s, st):
-        st.env[s.name] = Const(('localfunc', s.name, s.lineno))
+        from .model import FuncInfo
+        fi = FuncInfo(self.cur.module, f'{self.cur.qualname}.<locals>.{s.name}', s, cls=None)
+        st.env[s.name] = Const(('closure', fi))
         return [st], []
 
     def s_Delete(self, s, st):
@@ -679,7 +723,8 @@ class Interp(ExprMixin):
 
     def s_For(self, s, st):
         it = self.eval(s.iter, st)
-        if isinstance(it, Tup) and len(it) <= 6 and self.unroll and not s.orelse:
+        if isinstance(it, Tup) and not s.orelse and ((len(it) <= 6 and self.unroll) or (
+                len(it) <= 4 and all(isinstance(i, Const) or (isinstance(i, Poly) and i.const_value() is not None) for i in it.items))):
             # a list whose items are all known: iterate concretely
             states, done = [st], []
             for item in it.items:
